@@ -239,8 +239,8 @@ def enc_name(name: str, encoding: str):
             return None
     up = name.upper()
     o, ou = oem(name), oem(up)
-    base = os.path.splitext(up)[0][0:8].strip().encode(encoding, errors="replace")
-    ext = os.path.splitext(up)[1][1:4].strip().encode(encoding, errors="replace")
+    base = os.path.splitext(up)[0].strip()[0:8].encode(encoding, errors="replace")
+    ext = os.path.splitext(up)[1][1:].strip()[0:3].encode(encoding, errors="replace")
     try:
         conform = EightDotThree.is_8dot3_conform(name, encoding)
     except Exception:  # the model field is a bool; an escaping exception is reported by the tie anyway
